@@ -33,6 +33,9 @@ CLAIMS = {
  'C14': dict(engine='netmc', ref='DESIGN.md §3, §5 C14',
    text='Request-targets from a bounded URI grammar (11 hosts: registered names incl. punycode, UTF-8 and upper case, IPv4, IPv6 in four spellings; 6 ports; userinfo absent / user:pass / user / user: ; 6 paths incl. reserved characters) in absolute and authority form, plus origin-form paths and 17 damaged targets. Part A runs every target through the real HttpParser/Url and compares host, port and path with urllib.parse.urlsplit (defaults 80 / 443 for CONNECT). Part B sends each target through the real forward proxy: exactly one outbound connection to the un-bracketed host and that port (literal => direct connect with the right address family and no name resolution; name => one resolution of exactly that name), origin request line carries the origin-form path; damaged targets must not reach anybody.',
    note=NETMC_NOTE + ' d=0 (input enumeration).', technique='exhaustive enumeration of a bounded URI grammar on the real parser and the real event loop, urlsplit as reference'),
+ 'C20': dict(engine='netmc', ref='DESIGN.md §2, §5 C20',
+   text='Timeouts {1,2 (,5)} x reaper phase offsets x timed traces (silence, half a request, after a complete exchange, client activity resuming one tick / two ticks / half a timeout before the deadline, three keep-alives in a row each just inside the window, tunnel with upstream-to-client traffic with and without client activity, 300 KB of output pending across the deadline over 4 KiB kernel buffers) are run in threadless mode (the real tick-driven reaper of _run_forever) and threaded mode (the per-iteration check of run()) under a virtual clock that only select() timeouts advance. For every execution: the SUT closes the client socket strictly more than the timeout after the last client-side read/write, at most timeout + cleanup period + slack later, and a connection with pending output is never cut (all bytes arrive).',
+   note=NETMC_NOTE + ' d=0; event times are scenario parameters placed around the threshold. Closing at exactly the timeout is not distinguished from closing just after it.', technique='exhaustive enumeration of timed traces under a virtual clock on the real event loop (timed-automaton style threshold placement)'),
  'C10': dict(engine='netmc', ref='DESIGN.md §2, §5 C10', category='model_checking',
    text='For every history of the C05 corpus (all roles, every abort kind, connect failures, protocol errors) once and three times in a row, for idle-timeout histories under the virtual clock, and for every single injected I/O error / postponed peer action on top, the state at quiescence (executor still running, after gc.collect()) is inspected: /proc/self/fd minus harness descriptors equals the snapshot before the first connection, and works / registered events / unfinished tasks / selector map are back to empty.',
    note=NETMC_NOTE + ' A socket closed only by the cyclic GC counts as released.', technique='stateless model checking of the implementation with fault enumeration and a kernel-object census at quiescence'),
